@@ -127,14 +127,27 @@ pub struct ZExec<K: Kind<ZDrop>> {
     base: (u64, u64),
 }
 
+pub trait ZStepper {
+    fn start(&mut self, st: &mut Stats);
+    fn step(&mut self, op: Op) -> bool;
+    fn finish(&mut self);
+}
+
 impl<K: Kind<ZDrop>> ZExec<K> {
     pub fn new() -> Self {
         ZExec { form: ZForm::Gone, held: Vec::new(), forgotten: 0, base: counts() }
     }
 
+}
+
+/// Like the main executor, instantiated per concrete vector type so that method calls on the
+/// iterator resolve as in user code.
+macro_rules! zexec_impl {
+    ($K:ty) => {
+impl ZExec<$K> {
     fn in_form(&self) -> u64 {
         match &self.form {
-            ZForm::Arr(_) | ZForm::Tup(_) | ZForm::V(_) => K::N as u64,
+            ZForm::Arr(_) | ZForm::Tup(_) | ZForm::V(_) => <$K as Kind<ZDrop>>::N as u64,
             ZForm::It(_, r) => *r as u64,
             ZForm::Gone => 0,
         }
@@ -164,9 +177,9 @@ impl<K: Kind<ZDrop>> ZExec<K> {
     }
 
     pub fn start(&mut self, st: &mut Stats) {
-        let items: Vec<ZDrop> = (0..K::N).map(|_| ZDrop::new()).collect();
-        st.elements_created += K::N as u64;
-        self.form = ZForm::Arr(K::arr_from_vec(items));
+        let items: Vec<ZDrop> = (0..<$K as Kind<ZDrop>>::N).map(|_| ZDrop::new()).collect();
+        st.elements_created += <$K as Kind<ZDrop>>::N as u64;
+        self.form = ZForm::Arr(<$K as Kind<ZDrop>>::arr_from_vec(items));
     }
 
     fn pulled(&mut self, got: Option<ZDrop>, expect_some: bool, keep: bool, what: &str) {
@@ -189,12 +202,12 @@ impl<K: Kind<ZDrop>> ZExec<K> {
 
     pub fn step(&mut self, op: Op) -> bool {
         use OpK::*;
-        let n = K::N;
+        let n = <$K as Kind<ZDrop>>::N;
         let done = match op.k {
             ArrToV | VNew => match std::mem::replace(&mut self.form, ZForm::Gone) {
                 ZForm::Arr(a) => {
                     let isnew = op.k == VNew;
-                    if let Some(v) = guard_nopanic("V::from([T; N])", 0, 0, move || if isnew { K::v_new(a) } else { K::v_from_arr(a) }) {
+                    if let Some(v) = guard_nopanic("V::from([T; N])", 0, 0, move || if isnew { <$K as Kind<ZDrop>>::v_new(a) } else { <$K as Kind<ZDrop>>::v_from_arr(a) }) {
                         self.form = ZForm::V(v);
                     }
                     true
@@ -206,7 +219,7 @@ impl<K: Kind<ZDrop>> ZExec<K> {
             },
             TupToV => match std::mem::replace(&mut self.form, ZForm::Gone) {
                 ZForm::Tup(t) => {
-                    if let Some(v) = guard_nopanic("V::from(tuple)", 0, 0, move || K::v_from_tup(t)) {
+                    if let Some(v) = guard_nopanic("V::from(tuple)", 0, 0, move || <$K as Kind<ZDrop>>::v_from_tup(t)) {
                         self.form = ZForm::V(v);
                     }
                     true
@@ -219,10 +232,10 @@ impl<K: Kind<ZDrop>> ZExec<K> {
             VToArr | VToTup => match std::mem::replace(&mut self.form, ZForm::Gone) {
                 ZForm::V(v) => {
                     if op.k == VToArr {
-                        if let Some(a) = guard_nopanic("into_array", 0, 0, move || K::v_into_arr(v)) {
+                        if let Some(a) = guard_nopanic("into_array", 0, 0, move || <$K as Kind<ZDrop>>::v_into_arr(v)) {
                             self.form = ZForm::Arr(a);
                         }
-                    } else if let Some(t) = guard_nopanic("into_tuple", 0, 0, move || K::v_into_tup(v)) {
+                    } else if let Some(t) = guard_nopanic("into_tuple", 0, 0, move || <$K as Kind<ZDrop>>::v_into_tup(v)) {
                         self.form = ZForm::Tup(t);
                     }
                     true
@@ -234,7 +247,7 @@ impl<K: Kind<ZDrop>> ZExec<K> {
             },
             ArrToTup => match std::mem::replace(&mut self.form, ZForm::Gone) {
                 ZForm::Arr(a) => {
-                    self.form = ZForm::Tup(K::tup_from_arr(a));
+                    self.form = ZForm::Tup(<$K as Kind<ZDrop>>::tup_from_arr(a));
                     true
                 }
                 o => {
@@ -244,7 +257,7 @@ impl<K: Kind<ZDrop>> ZExec<K> {
             },
             TupToArr => match std::mem::replace(&mut self.form, ZForm::Gone) {
                 ZForm::Tup(t) => {
-                    self.form = ZForm::Arr(K::arr_from_tup(t));
+                    self.form = ZForm::Arr(<$K as Kind<ZDrop>>::arr_from_tup(t));
                     true
                 }
                 o => {
@@ -254,7 +267,7 @@ impl<K: Kind<ZDrop>> ZExec<K> {
             },
             VIntoIter => match std::mem::replace(&mut self.form, ZForm::Gone) {
                 ZForm::V(v) => {
-                    if let Some(it) = guard_nopanic("into_iter", 0, 0, move || K::v_into_iter(v)) {
+                    if let Some(it) = guard_nopanic("into_iter", 0, 0, move || <$K as Kind<ZDrop>>::v_into_iter(v)) {
                         self.form = ZForm::It(it, n);
                     }
                     true
@@ -267,9 +280,9 @@ impl<K: Kind<ZDrop>> ZExec<K> {
             SliceRead => match &self.form {
                 ZForm::V(v) => {
                     let via = (op.a % N_VIA as u32) as u8;
-                    if let Some(l) = guard_nopanic("slice view", 0, 0, || K::v_slice(v, via).len()) {
+                    if let Some(l) = guard_nopanic("slice view", 0, 0, || <$K as Kind<ZDrop>>::v_slice(v, via).len()) {
                         if l != n {
-                            tok::raise(V9_ALIAS, format!("zero-sized elements: {} has length {} on a {}-element {}", via_name(via, false), l, n, K::NAME));
+                            tok::raise(V9_ALIAS, format!("zero-sized elements: {} has length {} on a {}-element {}", via_name(via, false), l, n, <$K as Kind<ZDrop>>::NAME));
                         }
                     }
                     true
@@ -390,9 +403,9 @@ impl<K: Kind<ZDrop>> ZExec<K> {
                     let mode = op.a % 3;
                     let k = if mode == 2 { op.b as usize % (rem + 2) } else { 0 };
                     if let Some(v) = guard_nopanic("collect", 0, 0, move || match mode {
-                        0 => K::v_from_iter(it),
-                        1 => K::v_from_iter(it.rev()),
-                        _ => K::v_from_iter(it.skip(k)),
+                        0 => <$K as Kind<ZDrop>>::v_from_iter(it),
+                        1 => <$K as Kind<ZDrop>>::v_from_iter(it.rev()),
+                        _ => <$K as Kind<ZDrop>>::v_from_iter(it.skip(k)),
                     }) {
                         self.form = ZForm::V(v);
                     }
@@ -424,7 +437,7 @@ impl<K: Kind<ZDrop>> ZExec<K> {
                     return false;
                 }
                 let items: Vec<ZDrop> = (0..n).map(|_| ZDrop::new()).collect();
-                self.form = ZForm::Arr(K::arr_from_vec(items));
+                self.form = ZForm::Arr(<$K as Kind<ZDrop>>::arr_from_vec(items));
                 true
             }
             _ => false,
@@ -453,3 +466,29 @@ impl<K: Kind<ZDrop>> ZExec<K> {
         }
     }
 }
+        impl ZStepper for ZExec<$K> {
+            fn start(&mut self, st: &mut Stats) {
+                ZExec::<$K>::start(self, st)
+            }
+            fn step(&mut self, op: Op) -> bool {
+                ZExec::<$K>::step(self, op)
+            }
+            fn finish(&mut self) {
+                ZExec::<$K>::finish(self)
+            }
+        }
+    };
+}
+zexec_impl!(KVec2);
+zexec_impl!(KVec3);
+zexec_impl!(KVec4);
+zexec_impl!(KVec8);
+zexec_impl!(KVec16);
+zexec_impl!(KVec32);
+zexec_impl!(KVec64);
+zexec_impl!(KExtent2);
+zexec_impl!(KExtent3);
+zexec_impl!(KRgb);
+zexec_impl!(KRgba);
+zexec_impl!(KUv);
+zexec_impl!(KUvw);
